@@ -149,10 +149,17 @@ def nt_st(c):
 
 
 ST_PROBE = {'probe': {'devs': [1, 2, 3, 4], 'ifs': [[0, 0, 0, 1], [0, 0, 0, 2], [0, 0, 0, 3]]}}
+ST_PROBE_SYS = {'probe': {'devs': [17, 18, 19, 1], 'ifs': [[0, 0, 0, 1], [0, 0, 0, 2], [0, 0, 0, 3]]}}
 ST_MC = {'kind': 'mc', 'tree': True, 'name': 'status', 'module': 'MC_Status', 'comp': 'st', 'trace': 'TraceStatus',
          'cfg': {'quick': 'MC_Status_quick.cfg', 'thorough': 'MC_Status_thorough.cfg'}, 'extra': ST_PROBE,
          'invariants': ['InvC16']}
 ST_WALKS = dict(ST_MC, name='statuswalks', simulate={'quick': (600, 40), 'thorough': (8000, 60)})
+# the composed system (encoders -> lossy link -> decoder -> tracker): the tracker under real decoded traffic
+ST_SYS = {'kind': 'mc', 'tree': True, 'name': 'system', 'module': 'MC_Sys', 'comp': 'st', 'trace': 'TraceSys',
+          'cfg': {'quick': 'MC_Sys_quick.cfg', 'thorough': 'MC_Sys_thorough.cfg'}, 'extra': ST_PROBE_SYS,
+          'invariants': ['SysTracker', 'SysPending', 'SysShape']}
+ST_SYS_WALKS = dict(ST_SYS, name='systemwalks', simulate={'quick': (200, 45), 'thorough': (3000, 45)},
+                    cfg={'quick': 'MC_Sys_walks.cfg', 'thorough': 'MC_Sys_walks.cfg'})
 ST_RANDOM = {'kind': 'gen', 'name': 'randomstatus', 'gen': st_random, 'comp': 'st', 'trace': 'TraceStatus'}
 
 
@@ -450,13 +457,19 @@ PROPS = {
                     'interleaved with header setters. Monitor C13 (raw = Render(header before, args), views give the arguments '
                     'back, own validity check and decoder accept). Non-trivial = distinct episodes that build on a used object.',
             'assumptions': COMMON_ASSUMPTIONS},
-    'C16': {'level': 'model_checking', 'stages': [ST_MC, ST_WALKS, ST_RANDOM], 'nontrivial_case': nt_st,
+    'C16': {'level': 'model_checking', 'stages': [ST_MC, ST_WALKS, ST_SYS, ST_SYS_WALKS, ST_RANDOM], 'nontrivial_case': nt_st,
             'rule': 'MC_Status: the complete (finite, unbounded-depth) state graph of the tracker over Devs x Ifs x Tags with '
                     'capture-module status, interface status (also for devices that never sent a capture-module status), data '
                     'packets, removals and clear: the operational vector model refines the abstract latest-message map (InvC16); '
                     'every transition replayed on the real Status object (tree replay with copies); plus seeded random histories '
                     'of 300 (thorough 2000) operations over 14 device ids and 8 interface ids with full packets. Monitor: observed '
                     'entries as a map = abstract map, no duplicate ids, lookups = position in the observed order or the count. '
+                    'MC_Sys: the composed system (one real encoder per device -> link that loses frames and interleaves devices -> '
+                    'real decoder -> tracker, status messages in two segment frames each): TLC checks that the tracker computed '
+                    'from what the decoder delivers equals the latest-message map of the completely arrived messages (SysTracker); '
+                    'every transition replayed on the real objects and judged in lock step by TraceSys (C16: tracker = map of the '
+                    'packets the real decoder delivered; deviations of encoder / decoder from the specification are notes), plus '
+                    'random walks of the same model with more emits, losses, removals. '
                     'Non-trivial = distinct operations (tree stage) / distinct episodes containing updates and removals (random stage).',
             'assumptions': COMMON_ASSUMPTIONS},
     'C14': {'level': 'model_checking', 'stages': [VAL_MC, VAL_RANDOM], 'nontrivial_case': nt_val,
